@@ -93,22 +93,25 @@ Proof. exact add_simplified_mdfa_cell. Qed.
 
 (* ---- bit counters, ALL operand counts -------------------------------------------------------------- *)
 (* add_sum_n_bits: the result spells the number of ones (level of bit i = its position, hence
-   pairwise distinct); only gates of the resolved basis are added; AIG: gates <= 7 n - 3 m *)
+   pairwise distinct); only gates of the resolved basis are added; the documented bounds
+   (C07_documented_bounds): AIG gates <= 7 n - 3 m, XAIG gates <= 4.5 n - 2 m *)
+Theorem C07_documented_bounds : forall b g m n,
+  nbits_bound b g m n <->
+  match b with AIG => (g + 3 * m <= 7 * n)%nat | XAIG => (2 * g + 4 * m <= 9 * n)%nat end.
+Proof. intros []; reflexivity. Qed.
+
 Theorem C07_sum_n_bits_exact : forall fresh basis be xs s rs s',
   run fresh (add_sum_n_bits basis be xs) s = Ok (rs, s') ->
   exists b, resolve_basis basis = Ok b /\
     ext (bc s) (bc s') /\ inputs (bc s') = inputs (bc s) /\ outputs (bc s') = outputs (bc s) /\
-    (exists g, adds (t_of b) (bc s) (bc s') g /\ (b = AIG -> (g + 3 * length rs <= 7 * length xs)%nat)) /\
+    (exists g, adds (t_of b) (bc s) (bc s') g /\ nbits_bound b g (length rs) (length xs)) /\
     forall asg xv, bvals (bc s) asg xs xv ->
       exists rv, bvals (bc s') asg rs rv /\ decode be rv = ones xv.
 Proof. exact add_sum_n_bits_final. Qed.
 
-(* the documented XAIG bound, gates <= 4.5 n - 2 m:
-     forall n fresh host xs (length xs = n) ..., run (add_sum_n_bits basis be xs) s = Ok (rs, s') ->
-     resolve_basis basis = Ok XAIG -> adds t_xaig (bc s) (bc s') g -> 2 g + 4 (length rs) <= 9 n
-   is established by kernel computation for every n <= 64 on the bare circuit (together with:
-   the run returns Ok, m = number of binary digits of n, result labels pairwise distinct) *)
-Theorem C07_sum_n_bits_xaig_size_upto64 : forall n, (1 <= n <= 64)%nat ->
+(* the XAIG counter returns Ok for every n <= 64 on the bare circuit (the fuel of the modelled
+   loops suffices), with m = number of binary digits of n and pairwise distinct result labels *)
+Theorem C07_sum_n_bits_xaig_returns_upto64 : forall n, (1 <= n <= 64)%nat ->
   exists c rs s',
     bare n = Ok c /\ run hex_label (add_sum_n_bits (BEnum XAIG) false (in_labels n 0)) (mkB c 1) = Ok (rs, s') /\
     (2 * N.of_nat (length (added c (bc s'))) + 4 * N.of_nat (length rs) <= 9 * N.of_nat n)%N /\
@@ -210,7 +213,7 @@ Theorem C07_generate_sum_n_bits : forall fresh k0 ins basis be c,
   generate_sum_n_bits fresh k0 ins basis be = Ok c ->
   exists b, resolve_basis basis = Ok b /\
     inputs c = ins /\ only_basis (t_of b) c /\
-    (b = AIG -> (length (gates c) + 3 * length (outputs c) <= 8 * length ins)%nat) /\
+    (exists g, length (gates c) = (length ins + g)%nat /\ nbits_bound b g (length (outputs c)) (length ins)) /\
     forall asg bs, assigns asg ins bs ->
       exists rv, bvals c asg (outputs c) rv /\ decode be rv = ones bs.
 Proof. exact generate_sum_n_bits_correct. Qed.
